@@ -11,6 +11,7 @@ import EdzedModel.Interval
 import EdzedProofs.Interval
 import EdzedProofs.IntervalText
 import EdzedProofs.IntervalTables
+import EdzedProofs.IntervalString
 import EdzedModel.Gen.Constants
 import EdzedModel.Gen.Translated
 
@@ -215,6 +216,64 @@ theorem asList_roundtrip {k : Kind} (iv : List Range) (hs : Sorted iv)
 theorem parse_asList_idempotent {k : Kind} {spec : IvIn} {iv : List Range}
     (h : parseInterval k spec = .ok iv) : parseInterval k (listInput (asList iv)) = .ok iv :=
   asList_roundtrip iv (normal_form_sorted_full h).1 (fun r hr => ((normal_form_sorted_full h).2 r hr).1)
+
+/-- `as_string()` fed back yields the same interval: for every normal-form interval (sorted list of
+    valid ranges) of every kind, the rendering – ranges `start / stop;` (a single date for a one-day
+    date range) joined by blanks – is split by the delimiter and the separator into exactly the
+    original endpoints -/
+theorem asString_roundtrip {k : Kind} (iv : List Range) (hs : Sorted iv)
+    (hv : ∀ r ∈ iv, validEp k r.1 = true ∧ validEp k r.2 = true) :
+    parseInterval k (.str (asString k iv)) = .ok iv := by
+  obtain ⟨ha, hp⟩ := parseRanges_asString k iv hv
+  simp only [parseInterval, ha, Bool.not_true, Bool.false_eq_true, ↓reduceIte, hp, Res.map_ok,
+    sortR_of_sorted iv hs]
+
+/-- parsing any accepted specification, printing it and parsing the text again is the identity -/
+theorem parse_asString_idempotent {k : Kind} {spec : IvIn} {iv : List Range}
+    (h : parseInterval k spec = .ok iv) : parseInterval k (.str (asString k iv)) = .ok iv :=
+  asString_roundtrip iv (normal_form_sorted_full h).1 (fun r hr => ((normal_form_sorted_full h).2 r hr).1)
+
+/-- both exports denote the same interval -/
+theorem asString_asList_agree {k : Kind} {spec : IvIn} {iv : List Range}
+    (h : parseInterval k spec = .ok iv) :
+    parseInterval k (.str (asString k iv)) = parseInterval k (listInput (asList iv)) := by
+  rw [parse_asString_idempotent h, parse_asList_idempotent h]
+
+/-! ### range separators, in the code's priority (`Gen.rangeSeparatorsC`); endpoints in canonical
+notation, any number of blanks around them -/
+
+def blanks (p : List Char) : Prop := ∀ c ∈ p, c = ' '
+
+/-- `/` (first priority): every kind, incl. date-times whose renderings contain hyphens -/
+theorem range_separator_slash {k : Kind} {a b : Ep} (ha : validEp k a = true) (hb : validEp k b = true)
+    (p1 q1 p2 q2 : List Char) (h1 : blanks p1) (h2 : blanks q1) (h3 : blanks p2) (h4 : blanks q2) :
+    parseRange k (.str ((p1 ++ render k a ++ q1) ++ '/' :: (p2 ++ render k b ++ q2))) = .ok (a, b) :=
+  parseRangeStr_slash ha hb p1 q1 p2 q2 h1 h2 h3 h4
+
+/-- ` - ` (second priority): times and dates (their renderings contain neither `/` nor `-`) -/
+theorem range_separator_spaced_hyphen {k : Kind} (hk : k ≠ .datetime) {a b : Ep}
+    (ha : validEp k a = true) (hb : validEp k b = true)
+    (p1 q1 p2 q2 : List Char) (h1 : blanks p1) (h2 : blanks q1) (h3 : blanks p2) (h4 : blanks q2) :
+    parseRange k (.str ((p1 ++ render k a ++ q1) ++ ' ' :: '-' :: ' ' :: (p2 ++ render k b ++ q2))) = .ok (a, b) :=
+  parseRangeStr_spaced hk ha hb p1 q1 p2 q2 h1 h2 h3 h4
+
+/-- `-` (lowest priority) directly after the first endpoint: times and dates -/
+theorem range_separator_hyphen {k : Kind} (hk : k ≠ .datetime) {a b : Ep}
+    (ha : validEp k a = true) (hb : validEp k b = true)
+    (p1 p2 q2 : List Char) (h1 : blanks p1) (h3 : blanks p2) (h4 : blanks q2) :
+    parseRange k (.str ((p1 ++ render k a) ++ '-' :: (p2 ++ render k b ++ q2))) = .ok (a, b) :=
+  parseRangeStr_hyphen hk ha hb p1 p2 q2 h1 h3 h4
+
+/-- a single date stands for the one-day range -/
+theorem single_date_is_one_day_range {a : Ep} (ha : validDate a = true) (p q : List Char)
+    (h1 : blanks p) (h2 : blanks q) :
+    parseRange .date (.str (p ++ renderDate a ++ q)) = .ok (a, a) :=
+  parseRangeStr_single_date ha p q h1 h2
+
+/-- blanks around an endpoint in canonical notation are ignored -/
+theorem endpoint_blanks_ignored {k : Kind} {e : Ep} (h : validEp k e = true) (pre post : List Char)
+    (h1 : blanks pre) (h2 : blanks post) : convertStr k (pre ++ render k e ++ post) = .ok e :=
+  convertStr_render_padded h pre post h1 h2
 
 /-! ### the canonical string notation (what `as_string()` prints) parses back, for every endpoint -/
 
